@@ -245,6 +245,9 @@ func (x *Exec) topReturn(st *State, fr *Frame, rs []Val, ins *ssa.Return) {
 		}
 	}
 	for i, c := range vc.spec.Ensures {
+		if c.Assumed {
+			continue // used at call sites only; reported as an assumption
+		}
 		label := c.Label
 		if label == "" {
 			label = fmt.Sprintf("%d", i+1)
